@@ -608,7 +608,7 @@ func positiveOnEntry(v ssa.Value) bool {
 
 // loopTableX: reviewed loops, keyed by function and shape.
 var loopTableX = map[string]string{
-	"jtypes.Resolve:v=v.Elem()": "each iteration replaces v by v.Elem(): the pointer/interface chain of a value built from JSON (or any acyclic Go value) is finite; a self-referential interface value is outside the property's inputs (assumption)",
+	"jtypes.Resolve:v=v.Elem()":                "each iteration replaces v by v.Elem(): the pointer/interface chain of a value built from JSON (or any acyclic Go value) is finite; a self-referential interface value is outside the property's inputs (assumption)",
 	"jxpath.FormatNumber:for x > c { x /= k }": "runs after the multiplying loop on the same variable: x is finite unless that loop overflowed, and it can only overflow when its bound exceeded MaxFloat64/10, in which case this loop's bound (ten times larger) is +Inf and the test is false at once; a finite positive x divided by 10 falls below any positive bound",
 }
 
@@ -1080,7 +1080,7 @@ func runAcceptPredicates(c *Ctx, r *Result, rule string) int {
 			case res:
 				o.Verdict, o.Reason = Finding, "the predicate accepts eof: accept would succeed for ever at the end of the input"
 			default:
-				o.Verdict, o.Reason = Discharged, "predicate " + shortFn(pf) + " is false on eof (-1)"
+				o.Verdict, o.Reason = Discharged, "predicate "+shortFn(pf)+" is false on eof (-1)"
 			}
 			r.Add(o)
 		}
@@ -1200,31 +1200,31 @@ func eofHasNoBindingPower(c *Ctx) bool {
 // recursionTable: anchor function -> the structural descent that bounds the recursion of the
 // SCC containing it.
 var recursionTable = map[string]string{
-	"jsonata.eval":                        "AST depth: every eval* function recurses on child nodes of its node; callables re-enter eval on a lambda body / partial arguments, bounded by the property's exclusion of unboundedly recursive user functions",
-	"jsonata.flattenArray":                "value depth: recurses on the elements of an array value",
-	"jsonata.recurseDescendents":          "value depth: recurses on the members of a container value",
-	"jsonata.evalName":                    "value depth: evalNameArray calls evalName on array elements",
-	"(*jsonata.environment).lookup":       "scope chain: recurses on the parent environment, a finite acyclic chain (a child is created from an existing parent)",
-	"jsonata.newGoCallableParam":          "type structure: recurses on the element type of an Optional / the alternatives of a Variant",
-	"jsonata.processGoCallableArg":        "parameter descriptor: recurses on optType / varTypes of the descriptor, a finite tree built by newGoCallableParam",
-	"jsonata.newMatchCallable":            "match list: recurses on the tail of the matches slice",
+	"jsonata.eval":                           "AST depth: every eval* function recurses on child nodes of its node; callables re-enter eval on a lambda body / partial arguments, bounded by the property's exclusion of unboundedly recursive user functions",
+	"jsonata.flattenArray":                   "value depth: recurses on the elements of an array value",
+	"jsonata.recurseDescendents":             "value depth: recurses on the members of a container value",
+	"jsonata.evalName":                       "value depth: evalNameArray calls evalName on array elements",
+	"(*jsonata.environment).lookup":          "scope chain: recurses on the parent environment, a finite acyclic chain (a child is created from an existing parent)",
+	"jsonata.newGoCallableParam":             "type structure: recurses on the element type of an Optional / the alternatives of a Variant",
+	"jsonata.processGoCallableArg":           "parameter descriptor: recurses on optType / varTypes of the descriptor, a finite tree built by newGoCallableParam",
+	"jsonata.newMatchCallable":               "match list: recurses on the tail of the matches slice",
 	"(*jsonata.lambdaCallable).validArgType": "signature: recurses on SubParams of the parameter, a finite tree built by the parser",
-	"jlib.Boolean":                        "value depth: recurses on array elements",
-	"jlib.mergeSort":                      "slice halving: recurses on values[:n/2] and values[n/2:] with n >= 2",
-	"jlib.callMatchFunc":                  "match chain: each step follows the `next` callable of the previous match object; the chain built by newMatchCallable is finite",
-	"jlib.TypeOf":                         "value depth",
-	"jlib.keys":                           "value depth: recurses on array elements",
-	"jlib.keysArray":                      "value depth: recurses on array elements",
-	"jlib.Spread":                         "value depth: recurses on array elements",
-	"jlib.spreadArray":                    "value depth: recurses on array elements",
-	"jxpath.gcd":                          "Euclid: gcd(b, a%b) with b != 0 strictly decreases |b|",
-	"jparse.unescape":                     "string suffix: recurses on the rest of the string after at least one consumed escape",
-	"jparse.parseParams":                  "string: recurses on the bracketed substring, strictly shorter than its argument",
-	"(*jparse.parser).parseExpression":    "token stream: every recursive entry is preceded by the consumption of a token (advance in parseExpression); the lexer makes progress on every token (LEX)",
-	"(jparse.Param).String":               "signature tree: recurses on SubParams",
-	"(*jparse.ArrayNode).optimize":        "AST depth: optimize recurses on the child nodes of its receiver (a finite tree built by the parser)",
-	"(jparse.PathNode).String":            "AST depth: String recurses on child nodes",
-	"(*jparse.PathNode).String":           "AST depth: String recurses on child nodes",
+	"jlib.Boolean":                           "value depth: recurses on array elements",
+	"jlib.mergeSort":                         "slice halving: recurses on values[:n/2] and values[n/2:] with n >= 2",
+	"jlib.callMatchFunc":                     "match chain: each step follows the `next` callable of the previous match object; the chain built by newMatchCallable is finite",
+	"jlib.TypeOf":                            "value depth",
+	"jlib.keys":                              "value depth: recurses on array elements",
+	"jlib.keysArray":                         "value depth: recurses on array elements",
+	"jlib.Spread":                            "value depth: recurses on array elements",
+	"jlib.spreadArray":                       "value depth: recurses on array elements",
+	"jxpath.gcd":                             "Euclid: gcd(b, a%b) with b != 0 strictly decreases |b|",
+	"jparse.unescape":                        "string suffix: recurses on the rest of the string after at least one consumed escape",
+	"jparse.parseParams":                     "string: recurses on the bracketed substring, strictly shorter than its argument",
+	"(*jparse.parser).parseExpression":       "token stream: every recursive entry is preceded by the consumption of a token (advance in parseExpression); the lexer makes progress on every token (LEX)",
+	"(jparse.Param).String":                  "signature tree: recurses on SubParams",
+	"(*jparse.ArrayNode).optimize":           "AST depth: optimize recurses on the child nodes of its receiver (a finite tree built by the parser)",
+	"(jparse.PathNode).String":               "AST depth: String recurses on child nodes",
+	"(*jparse.PathNode).String":              "AST depth: String recurses on child nodes",
 }
 
 func sccs(g *MCG, nodes []*ssa.Function) [][]*ssa.Function {
